@@ -805,6 +805,72 @@ func c01queueClearedOnSwitch(c *Ctx) {
 	R.Explain("R01.10", "a new snapshot starts with an empty queue: every path to a store that installs a new snapshot in State.snap passes, after the last point at which the old snapshot could still be set, a reset of the responder queue (a store of nil/empty to State.res, directly or through State.close) - or comes along the edge on which State.snap was nil.  EXISTS / EXPUNGE / FETCH responders still queued for the previous mailbox would otherwise be replayed against the new mailbox's snapshot at the next flush: phantom messages, bogus EXPUNGEs, shifted sequence numbers.")
 	snapFld := c.fieldOf("internal/state", "State", "snap")
 	resFld := c.fieldOf("internal/state", "State", "res")
+	// resetsOf: the instructions of g that reset the queue (a nil store to State.res, or a call of a function of the
+	// package every return of which is preceded by a reset unless State.snap was nil), and the "snapshot was nil" edges of g
+	var resetsOf func(g *ssa.Function, d int) (map[ssa.Instruction]bool, map[engine.Edge]bool)
+	mustReset := map[*ssa.Function]int{} // 0 unknown, 1 yes, 2 no
+	resetsOf = func(g *ssa.Function, d int) (map[ssa.Instruction]bool, map[engine.Edge]bool) {
+		cut := map[ssa.Instruction]bool{}
+		skip := map[engine.Edge]bool{}
+		for _, bb := range g.Blocks {
+			for _, i2 := range bb.Instrs {
+				if s2, ok := i2.(*ssa.Store); ok && fieldAddrIs(s2.Addr, resFld) && engine.IsNilConst(s2.Val) {
+					cut[s2] = true
+				}
+			}
+			iff := engine.IfOf(bb)
+			if iff == nil {
+				continue
+			}
+			bin, ok := iff.Cond.(*ssa.BinOp)
+			if !ok || (bin.Op != token.EQL && bin.Op != token.NEQ) {
+				continue
+			}
+			var other ssa.Value
+			if engine.IsNilConst(bin.Y) {
+				other = bin.X
+			} else if engine.IsNilConst(bin.X) {
+				other = bin.Y
+			}
+			if ld, ok := other.(*ssa.UnOp); ok && fieldAddrIs(ld.X, snapFld) {
+				nilIx := 0
+				if bin.Op == token.NEQ {
+					nilIx = 1
+				}
+				skip[engine.Edge{From: bb, Succ: nilIx}] = true
+			}
+		}
+		if d < 2 {
+			for _, cs := range engine.Calls(g) {
+				h := cs.Common().StaticCallee()
+				if h == nil || h == g || len(h.Blocks) == 0 || h.Parent() != nil || cs.Instr.Parent() != g || !strings.HasSuffix(engine.PkgPathOf(h), "internal/state") {
+					continue
+				}
+				if mustReset[h] == 0 {
+					mustReset[h] = 2
+					hc, hs := resetsOf(h, d+1)
+					if len(hc) > 0 {
+						all := true
+						for _, r := range engine.Returns(h) {
+							if lr := engine.LastResult(r); lr != nil && lr.Type().String() == "error" && !engine.IsNilConst(lr) {
+								continue // a failing helper: the caller does not go on to install a snapshot
+							}
+							if engine.ReachesAvoiding(h, r, hc, hs) {
+								all = false
+							}
+						}
+						if all {
+							mustReset[h] = 1
+						}
+					}
+				}
+				if mustReset[h] == 1 {
+					cut[cs.Instr] = true
+				}
+			}
+		}
+		return cut, skip
+	}
 	n := 0
 	for _, f := range c.funcsInPkg("internal/state") {
 		if f.Parent() != nil {
@@ -820,63 +886,7 @@ func c01queueClearedOnSwitch(c *Ctx) {
 					continue
 				}
 				n++
-				// resets: direct nil stores to res, or calls that must reset it (close)
-				cut := c.mustCallInstrs(f, func(cc *ssa.CallCommon) bool {
-					sc := cc.StaticCallee()
-					if sc == nil || len(sc.Blocks) == 0 {
-						return false
-					}
-					// a function every return of which is preceded by a nil store to State.res
-					rc := map[ssa.Instruction]bool{}
-					for _, bb := range sc.Blocks {
-						for _, i2 := range bb.Instrs {
-							if s2, ok := i2.(*ssa.Store); ok && fieldAddrIs(s2.Addr, resFld) && engine.IsNilConst(s2.Val) {
-								rc[s2] = true
-							}
-						}
-					}
-					if len(rc) == 0 {
-						return false
-					}
-					for _, r := range engine.Returns(sc) {
-						if engine.ReachesAvoiding(sc, r, rc, nil) {
-							return false
-						}
-					}
-					return true
-				}, 1)
-				for _, bb := range f.Blocks {
-					for _, i2 := range bb.Instrs {
-						if s2, ok := i2.(*ssa.Store); ok && fieldAddrIs(s2.Addr, resFld) && engine.IsNilConst(s2.Val) {
-							cut[s2] = true
-						}
-					}
-				}
-				// the snapshot was nil: nothing can be queued for it
-				skip := map[engine.Edge]bool{}
-				for _, bb := range f.Blocks {
-					iff := engine.IfOf(bb)
-					if iff == nil {
-						continue
-					}
-					bin, ok := iff.Cond.(*ssa.BinOp)
-					if !ok || (bin.Op != token.EQL && bin.Op != token.NEQ) {
-						continue
-					}
-					var other ssa.Value
-					if engine.IsNilConst(bin.Y) {
-						other = bin.X
-					} else if engine.IsNilConst(bin.X) {
-						other = bin.Y
-					}
-					if ld, ok := other.(*ssa.UnOp); ok && fieldAddrIs(ld.X, snapFld) {
-						nilIx := 0
-						if bin.Op == token.NEQ {
-							nilIx = 1
-						}
-						skip[engine.Edge{From: bb, Succ: nilIx}] = true
-					}
-				}
+				cut, skip := resetsOf(f, 0)
 				bad := engine.ReachesAvoidingFrom(f.Blocks[0], 0, st, cut, skip)
 				R.Check(!bad, "R01.10", c.name(c.ownerFn(f))+"|queue reset before new snapshot", P.Pos(st.Pos()), "State.res is reset (or State.snap was nil) on every path", "a new snapshot is installed on a path that neither resets State.res nor comes from State.snap == nil: responders queued for the previous mailbox are applied to the new one")
 			}
